@@ -29,6 +29,8 @@
 (*                       record into the changes                           *)
 (*   OidProbeByLoad      new_oid decides presence by loading the current   *)
 (*                       revision (an un-created object does not load)     *)
+(*   PackFlagMissing     pack() reads an attribute that only exists when   *)
+(*                       the demo storage created its changes itself       *)
 (* `obs` (the answer of every query, transcription) and `dev` (where obs   *)
 (* differs from the meaning ObsTable(base \o changes), and why) are        *)
 (* functions of the other variables; they are printed with every state.    *)
@@ -44,8 +46,9 @@ CONSTANTS BaseKind, ChangesKind,   \* "file" | "mapping"
           MaxNewOid,   \* bound on new_oid calls
           MaxPack,     \* bound on pack calls
           Cls,         \* class kind per oid: "plain" | "merge"
+          Temporary,   \* the demo storages create their own changes storage (changes=None: a MappingStorage)
           PrintObs,    \* compute obs / dev with every state (behaviours for replay)
-          TidFromChangesOnly, UndoUncreates, OidProbeByLoad
+          TidFromChangesOnly, UndoUncreates, OidProbeByLoad, PackFlagMissing
 
 VARIABLES layers,      \* sequence of histories
           inst,        \* per layer: [lastTs, ltid, lastPack, issued] (instance state of that storage / demo)
@@ -192,7 +195,10 @@ Dev(L, I) ==
   ELSE LET W == Want(L, I)
            D == DObs(L, I)
            M == Cat(L)
-           bLb == {q \in Oids \X Bounds(M) : D.lb[q[1]][q[2]] # W.lb[q[1]][q[2]]}
+           \* "no such object at that time" is POSKeyError or None depending on which layer says it; both mean
+           \* that there is no revision (a connection treats them alike): only revisions are compared
+           SameLb(a, b) == IF a.k = "rev" \/ b.k = "rev" THEN a = b ELSE TRUE
+           bLb == {q \in Oids \X Bounds(M) : ~SameLb(D.lb[q[1]][q[2]], W.lb[q[1]][q[2]])}
            bCur == {o \in Oids : D.cur[o] # W.cur[o]}
            bSer == {q \in Oids \X TidsOf(M) : D.ser[q[1]][q[2]] # W.ser[q[1]][q[2]]}
            bGt == {o \in Oids : D.gt[o] # W.gt[o]}
@@ -398,24 +404,34 @@ NewOid(n0) ==
   /\ IsDemo /\ noids < MaxNewOid /\ noids' = noids + 1
   /\ (IF txn = NoTxn THEN TRUE ELSE txn.phase = "begun")
   /\ LET ok == n0 \notin inst[Top].issued /\ ~Present(Top, n0)
-     IN /\ res' = [call |-> "new_oid", out |-> "ok", oid |-> IF ok THEN n0 ELSE -1]
+     IN /\ res' = [call |-> "new_oid", out |-> "ok", oid |-> IF ok THEN n0 ELSE -1,
+                    \* the meaning: the id handed out was issued before or has records in some layer
+                    collides |-> ok /\ (n0 \in inst[Top].issued \/ n0 \in OidsOf(Cat(layers)))]
         /\ inst' = IF ok THEN [inst EXCEPT ![Top].issued = @ \cup {n0}] ELSE inst
   /\ UNCHANGED <<layers, txn, clock, begun, npacks, obs, dev>>
 
-\* DemoStorage.pack with a changes storage that was passed in: gc is refused, otherwise changes.pack(gc=False)
+\* DemoStorage.pack(t, referencesf, gc): g is the gc argument, "none" | "false" | "true".
+\*  - changes created by the demo storage itself (always a MappingStorage): changes.pack(t, referencesf[, gc=gc]),
+\*    so gc=None means the MappingStorage default, garbage collection over the changes alone
+\*  - changes passed in: gc=True is refused, otherwise changes.pack(t, referencesf, gc=False)
+\*    (the code as it is fails before that: the flag it reads was never set)
 PackT(sec) == sec * K + K - 1
-Pack(sec, gc) ==
+GcArgs == {"none", "false", "true"}
+Pack(sec, g) ==
   /\ IsDemo /\ txn = NoTxn /\ npacks < MaxPack /\ npacks' = npacks + 1
-  /\ sec \in 0..(MaxClock + 1)
+  /\ sec \in 0..(MaxClock + 1) /\ g \in GcArgs
   /\ LET T == PackT(sec)
-         r == IF gc THEN [out |-> "TypeError", h |-> TopH]
+         r == IF ~Temporary /\ PackFlagMissing THEN [out |-> "AttributeError", h |-> TopH]
+              ELSE IF ~Temporary /\ g = "true" THEN [out |-> "TypeError", h |-> TopH]
               ELSE IF OidsOf(TopH) = {} THEN [out |-> "empty", h |-> TopH]
               ELSE IF IsFile THEN FilePack(TopH, T, FALSE)
-              ELSE MappingPack(TopH, T, FALSE, inst[Top].lastPack)
+              ELSE MappingPack(TopH, T, Temporary /\ g # "false", inst[Top].lastPack)
+         \* MappingStorage sets _last_pack before it does anything else
+         mark == ~IsFile /\ r.out \in {"ok", "KeyError"}
      IN /\ layers' = [layers EXCEPT ![Top] = r.h]
-        /\ inst' = IF r.out \in {"ok", "nothing-freed", "redundant"} /\ T > inst[Top].lastPack
+        /\ inst' = IF (mark \/ r.out \in {"ok", "nothing-freed", "redundant"}) /\ T > inst[Top].lastPack
                    THEN [inst EXCEPT ![Top].lastPack = T] ELSE inst
-        /\ res' = [call |-> "pack", out |-> r.out, T |-> T, gc |-> gc]
+        /\ res' = [call |-> "pack", out |-> r.out, T |-> T, gc |-> g]
   /\ obs' = ObsOf(layers', inst') /\ dev' = DevOf(layers', inst')
   /\ UNCHANGED <<txn, clock, begun, noids>>
 
@@ -450,7 +466,7 @@ Next ==
   \/ \E c \in Client : Abort(c)
   \/ \E call \in WrongCalls : Wrong(call)
   \/ \E n0 \in Oids : NewOid(n0)
-  \/ \E sec \in 0..(MaxClock + 1), gc \in BOOLEAN : Pack(sec, gc)
+  \/ \E sec \in 0..(MaxClock + 1), g \in GcArgs : Pack(sec, g)
   \/ Push
   \/ Pop
 
@@ -461,7 +477,7 @@ AbortVoted(c) == IsDemo /\ InTxn(c) /\ txn.phase = "voted" /\ Len(txn.staged) >=
 CheckCurrentQ(c, o, s) == IsDemo /\ CheckCurrent(c, o, s)
 WrongQ(call) == (IF txn = NoTxn THEN FALSE ELSE txn.phase = "begun" /\ Len(txn.staged) = 1) /\ Wrong(call)
 NewOidQ(n0) == (IF txn = NoTxn THEN TRUE ELSE txn.staged = <<>>) /\ NewOid(n0)
-PackQ(sec, gc) == Len(TopH) >= 2 /\ res.call \in {"finish", "pack"} /\ Pack(sec, gc)
+PackQ(sec, g) == Len(TopH) >= 2 /\ res.call \in {"finish", "pack"} /\ Pack(sec, g)
 PushQ == (IsDemo => res.call \in {"finish", "pop"}) /\ Push
 PopQ == res.call \in {"finish", "push", "new_oid"} /\ Pop
 NextSim ==
@@ -475,7 +491,7 @@ NextSim ==
   \/ \E c \in Client : AbortVoted(c)
   \/ \E call \in WrongCalls : WrongQ(call)
   \/ \E n0 \in Oids : NewOidQ(n0)
-  \/ \E sec \in 0..(MaxClock + 1), gc \in BOOLEAN : PackQ(sec, gc)
+  \/ \E sec \in 0..(MaxClock + 1), g \in GcArgs : PackQ(sec, g)
   \/ PushQ
   \/ PopQ
 
@@ -524,9 +540,7 @@ UndoInChangesOnly ==
   [][(res'.call = "undo" /\ res'.out = "ok") => (Len(txn'.undone) > 0 /\ txn'.undone[Len(txn'.undone)] \in TidsOf(TopH))]_vars
 
 \* new_oid never returns an id issued before by this demo storage or present in any layer
-OidFreshBothLayers ==
-  [][(res'.call = "new_oid" /\ res'.oid >= 0 /\ noids' = noids + 1) =>
-        (res'.oid \notin inst[Top].issued /\ res'.oid \notin OidsOf(Cat(layers)))]_vars
+OidFreshBothLayers == [][(res'.call = "new_oid" /\ noids' = noids + 1) => ~res'.collides]_vars
 \* an id is forgotten from the issued set only once it is stored in the changes
 IssuedOrStored ==
   [][\A o \in Oids : (Len(inst') = Len(inst) /\ o \in inst[Top].issued /\ o \notin inst'[Top].issued)
